@@ -89,6 +89,24 @@ def layoutOfStr (stack cmd : String) : Option Layout :=
     | "merkleblock" => some (.schema merkleBlock)
     | _ => none
 
+/-- `net.IP.To16` as `NetAddress.Serialize` uses it: 4-byte IPv4 → IPv4-mapped IPv6, 16 bytes unchanged, anything else
+    (`nil`, odd lengths) → the 16 zero bytes of the unset array -/
+def ipTo16 (ip : Bytes) : Bytes :=
+  if ip.length = 4 then List.replicate 10 0 ++ [0xff, 0xff] ++ ip
+  else if ip.length = 16 then ip
+  else List.replicate 16 0
+
+/-- an address object as the node holds it: timestamp (Unix seconds), services, net.IP in any form, port -/
+structure NetAddr where
+  ts : Nat
+  services : Nat
+  ip : Bytes
+  port : Nat
+
+/-- `Addr.Serialize` from objects: the value that `addrMsg` encodes -/
+def addrVal (as : List NetAddr) : Val :=
+  .list (as.map fun a => .struct [.num a.ts, .num a.services, .bytes (ipTo16 a.ip), .num a.port])
+
 /-- offset of the Flags byte in an encoded `filterload` -/
 def flagsOffset (f : Bloom.Filter) : Nat := (Bloom.writeVarUint f.bits.length).length + f.bits.length + 8
 
